@@ -3,6 +3,7 @@ package monitors
 import (
 	"bytes"
 	"context"
+	"encoding/binary"
 	"fmt"
 	"log/slog"
 	"math/rand/v2"
@@ -211,6 +212,19 @@ func c13Server(r *ev.Run) {
 				off := bytes.Index(rq.data, rq.p.E2E[0].OptData[12:])
 				rq.data[off+rng.IntN(16)] ^= 1 << uint(rng.IntN(8))
 				mutation = "MAC bit flipped"
+			case 3: // header and authenticator of the genuine request kept, the UDP datagram replaced in place by another one
+				// (same length) and the genuine datagram appended behind the SCION payload
+				l4 := 8 + len(payload)
+				off := len(rq.data) - l4
+				tx2 := peer.UniqueTime64()
+				other := append([]byte{}, rq.data[off:]...)
+				binary.BigEndian.PutUint64(other[8+40:], tx2)
+				forged := append([]byte{}, rq.data[:off]...)
+				forged = append(forged, other...)
+				forged = append(forged, rq.data[off:]...)
+				rq.data = forged
+				tx = tx2 // a reply to the substituted request would carry this origin
+				mutation = "datagram substituted, genuine datagram appended"
 			case 4: // option timestamp / sequence number
 				off := bytes.Index(rq.data, rq.p.E2E[0].OptData[:12])
 				rq.data[off+6+rng.IntN(6)] ^= 1 << uint(rng.IntN(8)) // bytes 6..11: timestamp / sequence number (byte 5 is reserved and not covered)
@@ -551,6 +565,20 @@ func c13ClientWith(r *ev.Run, cfg c13ClientCfg) {
 			b, _ = peer.SignPkt(pkt, k)
 		case "payload-changed":
 			b[len(b)-48+2] ^= 0x10 // poll byte, after signing
+		case "forged-payload-genuine-datagram-appended":
+			// an on-path attacker keeps header and authenticator of a genuinely authenticated reply, replaces the
+			// UDP datagram in place by its own and appends the genuine datagram behind the SCION payload
+			zero := *pkt
+			zero.Payload = make([]byte, len(payload))
+			zero.E2E = []*slayers.EndToEndOption{peer.NewAuthOption(c13SPIServer, 0)}
+			if g, err := peer.SignPkt(&zero, cfg.key(last, "good")); err == nil && len(g) == len(b) {
+				l4 := 8 + len(payload)
+				off := len(g) - l4
+				forged := append([]byte{}, g[:off]...)
+				forged = append(forged, b[off:]...) // the attacker's datagram (same length, other content)
+				forged = append(forged, g[off:]...) // the datagram the MAC was made for
+				b = forged
+			}
 		case "client-direction-spi": // signed as if it were a request
 			pkt.E2E = []*slayers.EndToEndOption{peer.NewAuthOption(c13SPIClient, 0)}
 			b, _ = peer.SignPkt(pkt, cfg.key(last, "good"))
@@ -568,7 +596,7 @@ func c13ClientWith(r *ev.Run, cfg c13ClientCfg) {
 	c.Auth.Enabled = true
 	c.Auth.DRKeyFetcher = cfg.fetcher
 	pth := handPath(rng, c05LIA, c05RIA, s.Addr, 0)
-	modes := append([]string{"bad-mac", "wrong-key", "payload-changed", "none", "other-spi", "client-direction-spi", "good"}, cfg.extraModes...)
+	modes := append([]string{"bad-mac", "wrong-key", "payload-changed", "none", "other-spi", "client-direction-spi", "good", "forged-payload-genuine-datagram-appended"}, cfg.extraModes...)
 	for i := 0; i < r.Pick(140, 5000); i++ {
 		id := fmt.Sprintf("%s%d", cfg.prefix, i)
 		if r.Only() != "" && r.Only() != id {
@@ -609,7 +637,7 @@ func c13ClientWith(r *ev.Run, cfg c13ClientCfg) {
 		}
 		_ = ts
 		k, ok := c05Identify(off, 1)
-		bad := mode == "bad-mac" || mode == "wrong-key" || mode == "payload-changed" || strings.HasPrefix(mode, "key:")
+		bad := mode == "bad-mac" || mode == "wrong-key" || mode == "payload-changed" || strings.HasPrefix(mode, "key:") || mode == "forged-payload-genuine-datagram-appended"
 		switch {
 		case !ok:
 			r.Violation("scion-client|wrong-value:reported offset corresponds to none of the datagrams sent", id, w)
